@@ -37,9 +37,21 @@ func (s *Syncer[H]) Head(ctx context.Context, _ ...header.HeadOption[H]) (H, err
 
 	// attempt to set the (potentially) new network head
 	// it doesn't matter for the caller setting succeeds or not
-	_ = s.incomingNetworkHead(ctx, netHead)
+	applyErr := s.incomingNetworkHead(ctx, netHead)
 	// so return whatever is the current highest head
-	return s.localHead(ctx)
+	head, err := s.localHead(ctx)
+	if err != nil {
+		return head, err
+	}
+	// ... unless that is an expired one: re-initialization requested a fresh head which could not
+	// be applied on top of the expired subjective head
+	if expired, _ := isExpired(head, s.Params.trustingPeriod); expired {
+		return head, fmt.Errorf(
+			"subjective head(%d) is expired and network head(%d) could not be applied: %w",
+			head.Height(), netHead.Height(), applyErr,
+		)
+	}
+	return head, nil
 }
 
 // networkHead returns subjective head lazily ensuring its recency.
